@@ -1945,6 +1945,14 @@ func (p *balloons) allocMem(c cache.Container, mems idset.IDSet, types libmem.Ty
 				zone, c.PrettyName(), err)
 			return zone
 		}
+		// Never fall back to memoryless nodes: the kernel rejects
+		// them in cpuset.mems.
+		withMem := p.memAllocator.Masks().NodesWithMem()
+		if nodes&withMem != 0 {
+			nodes &= withMem
+		} else {
+			nodes = withMem
+		}
 		log.Error("allocMem: falling back to %s, failed to allocate memory for %s: %v",
 			nodes, c.PrettyName(), err)
 		return nodes
